@@ -12,23 +12,24 @@ for p in sys.argv[1:]:
         try: obj, k = dec.raw_decode(txt[j:])
         except Exception: i = j + 5; continue
         i = j + k
-        rows[obj['seed']] = obj
+        tag = 'thorough (selected queries)' if ('seedlogs3' in p and '.quick' not in p) else 'quick'
+        obj['_tag'] = tag; rows[(obj['seed'], tag)] = obj
 out = ['# Seeded changes and what the checks report on them', '',
        'Each row: the change was applied in a scratch worktree, its demonstration run on the clean and on the patched tree (exit codes), then',
        '`run_check.py <property> <tier>` was run with VERIF_REPO=<patched worktree> (tools/seed_eval.py).  rc 1 = VIOLATION reported (caught),',
        'rc 0 = not caught, rc 2 = the check could not decide (timeout etc.).', '',
-       '| seed | property | demo clean/patched | check rc | first report |', '|---|---|---|---|---|']
-for name in sorted(rows):
-    o = rows[name]
+       '| seed | tier run | property | demo clean/patched | check rc | first report |', '|---|---|---|---|---|---|']
+for key in sorted(rows):
+    o = rows[key]; name = key[0]
     for prop, c in o.get('checks', {}).items():
         first = next((l for l in c['lines'] if l.startswith('VIOLATION') or 'assertion=' in l), '')
         first2 = next((l.strip() for l in c['lines'] if 'assertion=' in l), first)
-        out.append('| %s | %s | %s / %s | %s | %s |' % (name, prop, o.get('demo_clean_rc', '-'), o.get('demo_patched_rc', '-'), c['rc'], first2.replace('|', '/')[:160]))
+        out.append('| %s | %s | %s | %s / %s | %s | %s |' % (name, o['_tag'], prop, o.get('demo_clean_rc', '-'), o.get('demo_patched_rc', '-'), c['rc'], first2.replace('|', '/')[:160]))
     mp = os.path.join(VERIF, 'seeded', name, 'meta.json')
     if os.path.exists(mp):
-        m = json.load(open(mp)); m['evaluation'] = {'demo_clean_rc': o.get('demo_clean_rc'), 'demo_patched_rc': o.get('demo_patched_rc'),
+        m = json.load(open(mp)); m.setdefault('evaluations', {}); m['evaluations'][o['_tag']] = {'demo_clean_rc': o.get('demo_clean_rc'), 'demo_patched_rc': o.get('demo_patched_rc'),
                                                     'checks': {p: {'rc': c['rc'], 'wall_s': c['wall_s'], 'reports': c['lines'][:4]} for p, c in o.get('checks', {}).items()},
                                                     'ran': 'tools/seed_eval.py seeded/%s' % name}
         json.dump(m, open(mp, 'w'), indent=1)
 open(os.path.join(VERIF, 'seeded', 'RESULTS.md'), 'w').write('\n'.join(out) + '\n')
-print('\n'.join(out[-len(rows) - 1:]))
+print(len(rows), 'rows')
